@@ -20,6 +20,18 @@ theorem C06_table_modelled :
 theorem C06_only_panic_guarded :
     (Gen.Commands.commands.filter (fun e => e.2.2.2)).map (·.1) = ["PANIC"] := by decide
 
+/-- regenerated: the services half of the dispatch table (key, handler, MinParams).  The handlers index
+parameters beyond some of these gates, which is why panic-freedom for services links is stated for
+protocol-conforming lines (`Conforming`); a gate that is lowered admits lines that used to be refused. -/
+theorem C06_services_minparams :
+    (Gen.Commands.commands.filter (fun e => hasPrefix e.1 "server_")).map (fun e => (e.1, e.2.1, e.2.2.1)) =
+    [("server_INVITE", "cmdServerInvite", 2), ("server_JOIN", "cmdServerJoin", 0), ("server_KICK", "cmdServerKick", 2),
+     ("server_KILL", "cmdServerKill", 1), ("server_MODE", "cmdServerMode", 0), ("server_NICK", "cmdServerNick", 0),
+     ("server_NOTICE", "cmdServerPrivmsg", 0), ("server_PART", "cmdServerPart", 0), ("server_PING", "cmdPing", 0),
+     ("server_PRIVMSG", "cmdServerPrivmsg", 0), ("server_QUIT", "cmdServerQuit", 0), ("server_SVSHOLD", "cmdServerSvshold", 1),
+     ("server_SVSJOIN", "cmdServerSvsjoin", 2), ("server_SVSMODE", "cmdServerSvsmode", 2), ("server_SVSNICK", "cmdServerSvsnick", 2),
+     ("server_SVSPART", "cmdServerSvspart", 2), ("server_TOPIC", "cmdServerTopic", 3)] := by decide
+
 /-- the gate: a command with fewer parameters than its regenerated `MinParams` never reaches
 its handler (so `msg.Params[k]` with `k < MinParams` cannot be out of range) -/
 theorem C06_minparams_gate (c : Ctx) (e : Entry) (m : IrcMsg) (s : Session) (fname : String) (mp : Nat)
